@@ -26,8 +26,30 @@ IS_UNIQUE = "cutplace.checks.IsUniqueCheck"
 DISTINCT = "cutplace.checks.DistinctCountCheck"
 
 
+def _composed_text_eq(ch):
+    """Equality of two texts composed of values known only up to equality: the same sequence of fragments is the same text;
+    otherwise, if both hold several values, the texts CAN coincide although the values differ ('a, b' + 'a' against 'a' +
+    'b, a'): both answers are explored.  Keys built that way are not injective."""
+    asked = []
+
+    def hook(interp, args, kwargs):
+        left, right = args
+        same = len(left.parts) == len(right.parts) and all(
+            (x is y) or (isinstance(x, Atom) and isinstance(y, Atom) and x == y) or (isinstance(x, str) and isinstance(y, str) and x == y)
+            for x, y in zip(left.parts, right.parts))
+        if same:
+            return True
+        atoms = [sum(1 for part in side.parts if isinstance(part, Atom)) for side in (left, right)]
+        if min(atoms) >= 2:
+            asked.append(None)
+            return ch.choose(("composed texts coincide", len(asked)), [False, True])
+        return False
+
+    return hook
+
+
 def _is_unique_cell(model, ch, max_rows):
-    interp = Interp(model, ch)
+    interp = Interp(model, ch, externals={"composed_text_eq": _composed_text_eq(ch)})
     world = World(model, interp, ch)
     key_fields = ch.choose("key fields", [["f0"], ["f0", "f1"]])
     check = Obj(model.cls(IS_UNIQUE), {"_field_names_to_check": list(key_fields), "_description": "unique",
@@ -284,7 +306,7 @@ def rule_reset_restores_fresh_state(ctx):
     def cell(ch):
         class_qualname = ch.choose("check", list(setups))
         rows_before = ch.choose("rows before the reset", [1, 2])
-        interp = Interp(model, ch)
+        interp = Interp(model, ch, externals={"composed_text_eq": _composed_text_eq(ch)})
         world = World(model, interp, ch)
         check = Obj(model.cls(class_qualname), dict(setups[class_qualname], _description="check"), label="check")
         state_names = {name for name, value in setups[class_qualname].items() if value is None}
@@ -306,4 +328,11 @@ def rule_reset_restores_fresh_state(ctx):
 
 from .common import rule_module_state  # noqa: E402
 
-RULES = [rule_is_unique, rule_distinct_count, rule_reset_restores_fresh_state, rule_only_accepted_rows, rule_reset_completeness, rule_same_data_set_only, rule_module_state]
+def rule_rows_are_numbered_physically(ctx):
+    """O5.6: "located at the later row and referring back to the row of the first occurrence" needs the row counter of the
+    reader to advance for every raw row - also after a row that was rejected and yielded or skipped (C04's cursor table)."""
+    ctx.res.minimum("O5.6", 1)
+    protocol.reader_rows_table(ctx, "O5.6", {"lines"}, "Reader.rows")
+
+
+RULES = [rule_is_unique, rule_distinct_count, rule_reset_restores_fresh_state, rule_only_accepted_rows, rule_reset_completeness, rule_same_data_set_only, rule_rows_are_numbered_physically, rule_module_state]
